@@ -326,6 +326,7 @@ static inline void free_myth_thread_struct_desc_ext(myth_thread_t th) {
 }
 
 MYTH_CTX_CALLBACK void myth_create_1(void *arg1,void *arg2,void *arg3) {
+  MYTH_VERIF_POINT(MYTH_VP_CTX_CALLBACK, arg1, arg2, MYTH_VP_CTX_CB_CREATE_1);
   MAY_BE_UNUSED uint64_t t0,t1;
   myth_running_env_t env = arg1;
   myth_thread_t new_thread = arg3;
@@ -523,6 +524,7 @@ static inline void myth_join_1(myth_running_env_t e,myth_thread_t th,void **resu
 
 MYTH_CTX_CALLBACK void myth_join_2(void *arg1,void *arg2,void *arg3)
 {
+  MYTH_VERIF_POINT(MYTH_VP_CTX_CALLBACK, arg1, arg2, MYTH_VP_CTX_CB_JOIN_2);
   myth_running_env_t env=arg1;
   myth_thread_t th=arg2,next_thread=arg3;
   //Set join target
@@ -536,6 +538,7 @@ MYTH_CTX_CALLBACK void myth_join_2(void *arg1,void *arg2,void *arg3)
 
 MYTH_CTX_CALLBACK void myth_join_3(void *arg1,void *arg2,void *arg3)
 {
+  MYTH_VERIF_POINT(MYTH_VP_CTX_CALLBACK, arg1, arg2, MYTH_VP_CTX_CB_JOIN_3);
   myth_thread_t this_thread=arg1,th=arg2;
   (void)arg3;
   //Set join target
@@ -991,6 +994,7 @@ static inline int myth_getconcurrency_body(void) {
    -------- */
 
 MYTH_CTX_CALLBACK void myth_yield_ex_1(void * arg1, void * arg2, void * arg3) {
+  MYTH_VERIF_POINT(MYTH_VP_CTX_CALLBACK, arg1, arg2, MYTH_VP_CTX_CB_YIELD_EX_1);
   myth_running_env_t env = arg1;
   myth_thread_t this_thread = arg2;
   myth_thread_t next_thread = arg3;
@@ -1135,6 +1139,7 @@ static void __attribute__((unused)) myth_entry_point(void)
 //Switch to next_thread
 MYTH_CTX_CALLBACK void myth_entry_point_1(void *arg1,void *arg2,void *arg3)
 {
+  MYTH_VERIF_POINT(MYTH_VP_CTX_CALLBACK, arg1, arg2, MYTH_VP_CTX_CB_ENTRY_POINT_1);
   MAY_BE_UNUSED uint64_t t0, t1;
   myth_running_env_t env = arg1;
   myth_thread_t this_thread = arg2, next_thread = arg3;
@@ -1186,6 +1191,7 @@ MYTH_CTX_CALLBACK void myth_entry_point_1(void *arg1,void *arg2,void *arg3)
 //Switch to the scheduler
 MYTH_CTX_CALLBACK void myth_entry_point_2(void *arg1,void *arg2,void *arg3)
 {
+  MYTH_VERIF_POINT(MYTH_VP_CTX_CALLBACK, arg1, arg2, MYTH_VP_CTX_CB_ENTRY_POINT_2);
   MAY_BE_UNUSED uint64_t t0,t1;
   myth_running_env_t env=arg1;
   myth_thread_t this_thread=arg2;
